@@ -13,11 +13,14 @@ import (
 	"github.com/teleport-network/teleport/x/xibc/core/host"
 	packettypes "github.com/teleport-network/teleport/x/xibc/core/packet/types"
 
+	"github.com/teleport-network/teleport/syscontracts"
+	stakingcontract "github.com/teleport-network/teleport/syscontracts/staking"
+
 	"verif/harness/core"
 	"verif/harness/pkt"
 )
 
-var callKinds = []string{"", "counter", "reverter", "bad-receiver", ""}
+var callKinds = []string{"", "counter", "reverter", "bad-receiver", "", "hard-failure"}
 
 type mon struct {
 	r   *core.Run
@@ -96,9 +99,18 @@ func (m *mon) send() {
 	s := m.s
 	sp := s.RandSendSpec(nil)
 	kind := callKinds[s.Rng.Intn(len(callKinds))]
-	if kind == "bad-receiver" {
+	switch kind {
+	case "bad-receiver":
 		sp.Receiver = "not-an-address"
-	} else {
+		sp.Call = pkt.CallSpec{Kind: kind}
+	case "hard-failure":
+		// a staking action the packet contract cannot pay for: the EVM part succeeds, the post-processing hook fails,
+		// so the module's call into the packet contract fails as a whole (not a result code from the contract)
+		vals := sp.Dst.App.StakingKeeper.GetAllValidators(sp.Dst.Ctx())
+		if data, err := stakingcontract.StakingContract.ABI.Pack("delegate", vals[0].OperatorAddress, big.NewInt(1_000_000)); err == nil {
+			sp.Call = pkt.CallSpec{Kind: kind, Contract: syscontracts.StakingContractAddress, Data: data}
+		}
+	default:
 		sp.Call = s.CallTo(sp.Dst, kind)
 	}
 	if sp.Token == nil && sp.Call.Kind == "" {
@@ -127,7 +139,15 @@ func (m *mon) recv() {
 	}
 	m.r.Eval(fmt.Sprintf("%s/%d/recv/%s", m.cid, len(s.Log), p.Key()), true)
 	if o.OK() {
-		m.r.Count(fmt.Sprintf("recvs/ack-code-%d", p.AckCode), 1)
+		m.r.Count(fmt.Sprintf("recvs/ack-code-%d/%s", p.AckCode, p.Spec.Call.Kind), 1)
+		// a callback that fails (revert inside the contract, unusable receiver, failure of the module's call as a whole)
+		// must be acknowledged as an ERROR
+		switch p.Spec.Call.Kind {
+		case "reverter", "bad-receiver", "hard-failure":
+			if p.AckWritten != nil && p.AckCode == 0 {
+				m.r.Violation(m.cid, "acks/success-acknowledgement-for-a-failed-callback/"+p.Spec.Call.Kind, map[string]interface{}{"packet": p.Key(), "spec": p.Spec.Describe(), "log": s.Log})
+			}
+		}
 		m.afterTx(p.DstN, o, p, nil)
 	} else {
 		m.r.Count("honest_recv_rejected", 1)
